@@ -11,12 +11,12 @@ JOBS = [
   Job("c06.init", TU, "h_barrier_init", fuc=["myth_barrier_init_body", "myth_sleep_stack_init"], timeout=100),
   Job("c06.lemmas", TU, "h_lemmas", timeout=100),
   Job("c06.wake_many.bounded", TU, "h_wake_many_stack", kind="bounded",
-      replace_calls=["myth_sleep_stack_pop:verif_stack_pop", "myth_queue_push:verif_push"],
+      replace_calls=["myth_sleep_stack_pop:verif_stack_pop", "myth_queue_push:verif_push", "myth_yield_body:verif_yield_wm"],
       cbmc=["--unwind", "8", "--unwinding-assertions"], defines=["-DWM_N=4", "-DWM_K=2"],
       fuc=["myth_wake_many_from_stack"], timeout=300, tiers=("quick",),
       note="bounded: n <= 4 sleepers, at most 2 empty polls of the sleep stack (late sleepers)"),
   Job("c06.wake_many.n12.bounded", TU, "h_wake_many_stack", kind="bounded",
-      replace_calls=["myth_sleep_stack_pop:verif_stack_pop", "myth_queue_push:verif_push"],
+      replace_calls=["myth_sleep_stack_pop:verif_stack_pop", "myth_queue_push:verif_push", "myth_yield_body:verif_yield_wm"],
       cbmc=["--unwind", "20", "--unwinding-assertions"], defines=["-DWM_N=12", "-DWM_K=4"],
       fuc=["myth_wake_many_from_stack"], timeout=1800, mem_gb=12, tiers=("thorough",),
       note="bounded: n <= 12 sleepers, at most 4 empty polls of the sleep stack (late sleepers)"),
